@@ -225,11 +225,9 @@ class ContractMixin:
             s2.alloc = self.fresh_alloc(s2)
             opaque = r.cls.endswith('+')
             cls = self.classes.canon(r.cls.rstrip('+'))
-            ex = self.new_object(s2, cls, defaults=False)
+            ex = self.new_object(s2, cls, defaults=False, tag=not opaque)
             if opaque:
                 # dynamic class: any subclass
-                tag = fresh(TInt, 'exc_cls').t
-                s2.heap['$cls'] = z3.Store(self.cls_array(s2), ex.t, tag)
                 s2.assume(self.isinstance_term(s2, ex, cls))
             extra = dict(env)
             extra['exc'] = ex
@@ -404,6 +402,15 @@ class ContractMixin:
             lam = e.args[-1]
             if not isinstance(lam, ast.Lambda):
                 raise OutsideSubset('quantifier needs a lambda')
+            if name == 'exists' and self.exists_witness and all(a.arg in self.exists_witness for a in lam.args.args):
+                # proving an existential: instantiate it with the witness given in the contract
+                s2 = st.copy()
+                for a in lam.args.args:
+                    s2.env[a.arg] = self.exists_witness[a.arg]
+                body = self.eval_bool_total(s2, lam.body)
+                for f in s2.facts:
+                    st.fact(f)
+                return [(st, SV(TBool, body))]
             vars_ = []
             s2 = st.copy()
             tys = [parse_type(a.value) if isinstance(a, ast.Constant) else None for a in e.args[:-1]]
@@ -429,6 +436,13 @@ class ContractMixin:
                     outs.append((s2, SV(TBool, z3.Or(v.ty.is_none(v.t), v.ty.val(v.t) >= self.old_state.alloc))))
                 else:
                     outs.append((s2, SV(TBool, v.t >= self.old_state.alloc)))
+            return outs
+        if name == 'cast':
+            outs = []
+            for s2, v in self.eval(st, e.args[0]):
+                v = self.need_value(v)
+                cls = self.classes.canon(e.args[1].value)
+                outs.append((s2, SV(TRef(cls), v.t)))
             return outs
         if name == 'isclass':
             # isclass(x, 'module.Class'): exact dynamic class
@@ -540,24 +554,53 @@ class ContractMixin:
         return acc
 
     def call_recursive_spec(self, st, mod, name, fnode, sig, bound, params):
-        """Uninterpreted application + one-level unfolding of the definition as a fact."""
+        """Uninterpreted application + one-level unfolding of the definition as a fact.
+        The heap arrays the body reads are extra arguments of the uninterpreted function."""
         ptypes, rty = sig
         ptypes = [parse_type(t) for t in ptypes]
         rty = parse_type(rty)
         terms = []
         for p, ty in zip(params, ptypes):
             terms.append(box(self.coerce(st, bound[p], ty)))
-        f = strops.ufun('spec_' + name, *([t.sort() for t in terms] + [rty.sort()]))
-        app = f(*terms)
+        typed = {p: unbox(ty, t) for p, ty, t in zip(params, ptypes, terms)}
+        key = (mod.__name__, name)
+        if key in self._spec_deps and self._spec_deps[key] is None:
+            # re-entered while discovering the footprint of this very function
+            return fresh(rty, 'probe')
+        if key not in self._spec_deps:
+            # discover the heap footprint once (all paths of the body are evaluated)
+            self._spec_deps[key] = None
+            saved = self.heap_reads
+            self.heap_reads = set()
+            self.rec_depth += 10
+            try:
+                probe = st.copy()
+                self.inline_spec(probe, mod, fnode, typed)
+                deps = set(self.heap_reads)
+            finally:
+                self.rec_depth -= 10
+                self.heap_reads = saved
+            self._spec_deps[key] = sorted(deps, key=str)
+        deps = self._spec_deps[key]
+        if self.heap_reads is not None:
+            self.heap_reads.update(deps)
+        harrs = []
+        for k in deps:
+            if k == '$cls':
+                continue
+            else:
+                _, fty = self.classes.field(k[0], k[1])
+                harrs.append(self.heap_array(st, k, fty))
+        allterms = terms + harrs
+        f = strops.ufun('spec_' + name, *([t.sort() for t in allterms] + [rty.sort()]))
+        app = f(*allterms)
         res = unbox(rty, app)
-        key = (name, tuple(t.get_id() for t in terms))
         reveal = getattr(getattr(mod, name), '_pyvc_reveal', None)
         if reveal is not None and self.fn_name not in reveal:
             return res
         if self.rec_depth == 0 or (reveal is not None and self.rec_depth < 3):
             self.rec_depth += 1
             try:
-                typed = {p: unbox(ty, t) for p, ty, t in zip(params, ptypes, terms)}
                 body = self.inline_spec(st, mod, fnode, typed)
             finally:
                 self.rec_depth -= 1
